@@ -3,20 +3,18 @@ explicit-state BFS over interpreter import states, every state materialised by a
 `python -I` process that has imported nothing but what interpreter start-up loads."""
 META = dict(
     engine="imp", level="model_checking",
-    technique="explicit-state BFS over interpreter import states (state = set of ioflo modules in sys.modules + failed imports), "
-              "each state rebuilt in a fresh isolated interpreter, every module imported from every state",
+    technique="explicit-state BFS over interpreter import states (state = ioflo modules in sys.modules with their namespace "
+              "fingerprint + failed imports), each state rebuilt in a fresh isolated interpreter, every module imported from every state",
     text="The module list is read from the package directory at run time (test packages excluded). Starting from a cold `python -I` "
-         "interpreter, every module is imported from every reached state up to depth 2 (3 in thorough, plus all ordered pairs "
-         "explicitly); a transition must succeed and the public namespace of the imported module must equal the one it has when "
-         "imported alone.",
-    note="Interpreter is the single supported /venv/bin/python; states are abstracted to the set of loaded ioflo modules "
-         "(cross-checked in thorough by running all ordered pairs without the abstraction); depth-bounded, the full lattice of "
-         "module unions is not enumerated.",
+         "interpreter (and a `python -I -S` one), every module is imported from every reached state up to depth 2 (3 in thorough, "
+         "plus all ordered pairs explicitly); a transition must succeed and afterwards the public namespace of every loaded ioflo "
+         "module must equal the one it has when imported alone.",
+    note="Interpreter is the single supported /venv/bin/python; depth-bounded: the full lattice of unions of module closures is "
+         "not enumerated (frontier size reported); namespaces are compared by name, kind and defining module, not by value identity.",
 )
 import os
 import re
 import subprocess
-import sys
 from concurrent.futures import ThreadPoolExecutor
 
 from mc import core
@@ -24,12 +22,13 @@ from mc import core
 PY = "/venv/bin/python"
 
 # The program run inside the isolated interpreter.  It must not import anything that is not
-# already loaded by interpreter start-up (sys, os) except the C-only zlib for the digest.
-DRIVER = r'''
+# already loaded by interpreter start-up (sys, os) except the C-only zlib for the digests.
+DRIVER = r"""
 import sys, os
 import zlib
 job = eval(sys.argv[1])
 repo = job["repo"]
+alone = job.get("alone")
 sys.path.insert(0, repo)
 Mod = type(sys)
 out = sys.stdout
@@ -53,20 +52,33 @@ def kind(modname, v):
 def namespace(name):
     mod = sys.modules[name]
     items = []
-    for k in sorted(vars(mod)):
+    d = vars(mod)
+    for k in sorted(d):
         if k.startswith("_"):
             continue
-        d = kind(name, vars(mod)[k])
-        if d is not None:
-            items.append(k + "=" + d)
+        x = kind(name, d[k])
+        if x is not None:
+            items.append(k + "=" + x)
     return items
 
-def step(name, verbose):
+def digest(name):
+    items = namespace(name)
+    blob = "\n".join(items).encode("utf-8", "backslashreplace")
+    return "%08x%08x.%d" % (zlib.crc32(blob), zlib.adler32(blob), len(items))
+
+def statemap():
+    return dict((m, digest(m)) for m in iomods())
+
+def fingerprint(m):
+    blob = "\n".join("%s=%s" % kv for kv in sorted(m.items())).encode("utf-8")
+    return "%08x%08x" % (zlib.crc32(blob), zlib.adler32(blob))
+
+def step(name):
     try:
         __import__(name)
         f = getattr(sys.modules[name], "__file__", None) or ""
         if not f.startswith(repo + os.sep):
-            return ("fail", "WrongTree", "imported from " + f, "", None)
+            return ("fail", "WrongTree", "imported from " + f, "")
     except BaseException as ex:
         tb = ex.__traceback__
         where = ""
@@ -75,33 +87,39 @@ def step(name, verbose):
             if fn.startswith(repo + os.sep):
                 where = fn[len(repo) + 1:] + ":" + tb.tb_frame.f_code.co_name
             tb = tb.tb_next
-        return ("fail", type(ex).__name__, str(ex), where, getattr(ex, "name", None))
-    items = namespace(name)
-    blob = "\n".join(items).encode("utf-8", "backslashreplace")
-    dig = "%08x%08x%d" % (zlib.crc32(blob), zlib.adler32(blob), len(items))
-    return ("ok", dig, items if verbose else None)
+        return ("fail", type(ex).__name__, str(ex)[:300], where)
+    return ("ok",)
 
 def emit(rec):
     out.write(repr(rec) + "\n")
     out.flush()
 
 emit(("startup", sorted(sys.modules)))
-pathres = []
-for name in job["path"]:
-    pathres.append(step(name, False)[:2])
+pathres = [step(name) for name in job["path"]]
 base = iomods()
-emit(("path", pathres, base))
 baseset = set(base)
+basemap = statemap()
+emit(("path", pathres, base, fingerprint(basemap)))
 
 def cand_record(name):
-    res = step(name, job["verbose"])
-    now = set(iomods())
-    return ("cand", name, res, sorted(now - baseset), sorted(baseset - now))
+    res = step(name)
+    now = iomods()
+    m = statemap()
+    if alone is None:
+        info = m
+    else:
+        info = sorted(k for k in m if k in alone and alone[k] != m[k])[:12]
+    nowset = set(now)
+    return ("cand", name, res, sorted(nowset - baseset), sorted(baseset - nowset), fingerprint(m), info)
 
-if job["mode"] == "direct":
+if job["mode"] == "dump":
+    for name in job["cands"]:
+        step(name)
+    for name in job["dump"]:
+        emit(("dump", name, namespace(name) if name in sys.modules else None))
+elif job["mode"] == "direct":
     for name in job["cands"]:
         emit(cand_record(name))
-        baseset = set(iomods())
 else:
     todo = []
     for name in job["cands"]:
@@ -109,8 +127,9 @@ else:
             # already fully imported in this state: the import statement is a sys.modules lookup that
             # runs no module code and cannot change the state, so no fork is needed to protect it
             rec = cand_record(name)
-            if rec[3] or rec[4]:
-                rec = ("cand", name, ("fail", "StateChanged", "import of a loaded module changed sys.modules", "", None), rec[3], rec[4])
+            if rec[3] or rec[4] or rec[5] != fingerprint(basemap):
+                rec = ("cand", name, ("fail", "StateChanged", "import of a loaded module changed the interpreter state", ""),
+                       rec[3], rec[4], rec[5], rec[6])
             emit(rec)
         else:
             todo.append(name)
@@ -127,19 +146,19 @@ else:
                 code = 1
                 try:
                     line = (repr(cand_record(name)) + "\n").encode("utf-8", "backslashreplace")
-                    if len(line) > 4000:      # keep the write atomic (PIPE_BUF)
-                        rec = cand_record(name)
-                        line = (repr(rec[:3] + (rec[3][:20] + ["..."], rec[4][:20])) + "\n").encode("utf-8", "backslashreplace")[:4000]
-                    os.write(1, line)
-                    code = 0
+                    if len(line) <= 4000:      # one atomic write (PIPE_BUF)
+                        os.write(1, line)
+                        code = 0
+                    else:
+                        code = 3
                 finally:
                     os._exit(code)
             pids.append((pid, name))
         for pid, name in pids:
             _, st = os.waitpid(pid, 0)
             if st != 0:
-                emit(("cand", name, ("fail", "ChildCrash", "status %d" % st, "", None), [], []))
-'''
+                emit(("cand", name, ("fail", "ChildCrash", "wait status %d" % st, ""), [], [], "", []))
+"""
 
 
 def module_list(repo):
@@ -164,11 +183,12 @@ def module_list(repo):
 
 
 def run_job(job):
-    """One isolated interpreter: replay job['path'], then import each of job['cands']."""
+    """One isolated interpreter: replay job['path'], then import each of job['cands'].
+    Returns (startup modules, path record, list of cand dicts in job order, dumps)."""
     arg = repr(dict(job, repo=core.REPO))
     env = {"PATH": os.environ.get("PATH", "/usr/bin:/bin"), "HOME": "/nonexistent", "LANG": "C.UTF-8"}
+    flags = ["-I", "-S"] if job.get("bare") else ["-I"]
     try:
-        flags = ["-I", "-S"] if job.get("bare") else ["-I"]
         r = subprocess.run([PY] + flags + ["-W", "ignore", "-c", DRIVER, arg], capture_output=True, text=True,
                            timeout=1500, env=env, cwd="/")
     except subprocess.TimeoutExpired:
@@ -181,24 +201,25 @@ def run_job(job):
             except Exception:
                 pass     # something an imported module printed
     cands = [x for x in recs if x[0] == "cand"]
-    order = {n: i for i, n in enumerate(job["cands"])}
-    if (not recs or recs[0][0] != "startup" or len(recs) < 2 or recs[1][0] != "path"
-            or sorted(x[1] for x in cands) != sorted(job["cands"])):
+    dumps = dict((x[1], x[2]) for x in recs if x[0] == "dump")
+    ok = recs and recs[0][0] == "startup" and len(recs) >= 2 and recs[1][0] == "path"
+    if ok and job["mode"] != "dump":
+        ok = sorted(x[1] for x in cands) == sorted(job["cands"])
+    if not ok:
         raise core.BrokenCheck("import driver malfunction rc=%s path=%r cands=%r\nstdout=%s\nstderr=%s"
                                % (r.returncode, job["path"], job["cands"], r.stdout[-600:], r.stderr[-1200:]))
     base = set(recs[1][2])
-    out = recs[:2]
-    if job["mode"] == "direct":
-        cur = set(base)
-        for x in cands:
-            cur = (cur | set(x[3])) - set(x[4])
-            out.append(("cand", x[1], x[2], sorted(cur)))
-    else:
-        for x in sorted(cands, key=lambda x: order[x[1]]):
-            if "..." in x[3]:
-                raise core.BrokenCheck("fork record too long for an atomic write: %r" % (x[:2],))
-            out.append(("cand", x[1], x[2], sorted((base | set(x[3])) - set(x[4]))))
-    return out
+    order = {n: i for i, n in enumerate(job["cands"])}
+    out = []
+    cur = set(base)
+    seq = cands if job["mode"] == "direct" else sorted(cands, key=lambda x: order[x[1]])
+    for x in seq:
+        if job["mode"] == "direct":
+            after = cur = (cur | set(x[3])) - set(x[4])    # direct candidates accumulate (one per job in practice)
+        else:
+            after = (base | set(x[3])) - set(x[4])
+        out.append(dict(path=tuple(job["path"]), cand=x[1], res=x[2], after=frozenset(after), fp=x[5], info=x[6]))
+    return recs[0][1], recs[1], out, dumps
 
 
 def norm_msg(msg):
@@ -207,13 +228,9 @@ def norm_msg(msg):
     return msg[:160]
 
 
-def state_key(iomods, failed):
-    return (frozenset(iomods), frozenset(failed))
-
-
 def short_state(key):
     import hashlib
-    h = hashlib.sha1(("\n".join(sorted(key[0])) + "|" + "\n".join(sorted(key[1]))).encode()).hexdigest()[:8]
+    h = hashlib.sha1(("\n".join(sorted(key[0])) + "|" + "\n".join(sorted(key[1])) + "|" + key[2]).encode()).hexdigest()[:8]
     return "%s(%d loaded,%d failed)" % (h, len(key[0]), len(key[1]))
 
 
@@ -226,23 +243,22 @@ class Explorer:
         self.mods = mods
         self.part = part
         self.pool = pool
-        self.alone = {}          # module -> digest when imported alone (depth-1 transition)
+        self.alone = {}          # module -> namespace digest when imported alone
         self.startup = None
         self.processes = 0
 
-    def transitions(self, paths_and_cands, mode, bare=False):
-        """Run jobs; yields (path, cand, result, iomods_after)."""
+    def transitions(self, paths_and_cands, mode, bare=False, alone=None):
         jobs = []
         paths_and_cands = list(paths_and_cands)
         per_state = max(1, -(-2 * core.NPROC // max(1, len(paths_and_cands))))
         for path, cands in paths_and_cands:
             size = 1 if mode == "direct" else max(1, -(-len(cands) // per_state))
             for ch in chunks(cands, size):
-                jobs.append(dict(path=list(path), cands=ch, mode=mode, verbose=False, bare=bare))
+                jobs.append(dict(path=list(path), cands=ch, mode=mode, bare=bare, alone=alone))
         results = list(self.pool.map(run_job, jobs))
         self.processes += len(jobs)
-        for job, recs in zip(jobs, results):
-            st = recs[0][1]
+        out = []
+        for job, (st, pathrec, recs, _) in zip(jobs, results):
             if bare:
                 if "site" in st or "collections" in st:
                     raise core.BrokenCheck("`-S` interpreter loaded site/collections at start-up")
@@ -253,86 +269,90 @@ class Explorer:
                     raise core.BrokenCheck("isolated interpreter is not cold: %r preloaded" % bad)
             elif st != self.startup:
                 raise core.BrokenCheck("isolated interpreter start-up state differs between processes")
-            for rec in recs:
-                if rec[0] == "cand":
-                    yield job["path"], rec[1], rec[2], rec[3]
+            if any(r[0] != "ok" for r in pathrec[1]):
+                raise core.BrokenCheck("replaying the path %r of an expanded state failed: %r" % (job["path"], pathrec[1]))
+            out.extend(recs)
+        return out
 
-    def verbose_namespace(self, path, cand):
-        mode = "direct" if not path else "fork"
-        recs = run_job(dict(path=list(path), cands=[cand], mode=mode, verbose=True))
-        for rec in recs:
-            if rec[0] == "cand" and rec[2][0] == "ok":
-                return rec[2][2]
-        return None
+    def namespace_diff(self, path, cand, module):
+        """Full namespaces of `module` alone and after path + cand, for the violation report."""
+        _, _, _, a = run_job(dict(path=[], cands=[module], mode="dump", dump=[module], alone=None))
+        _, _, _, b = run_job(dict(path=list(path), cands=[cand], mode="dump", dump=[module], alone=None))
+        return set(a.get(module) or ()), set(b.get(module) or ())
 
-    def judge(self, path, cand, res, after, failed_before):
-        """Oracle for one transition.  Returns (violated, new_failed)."""
+    def judge(self, tr, label=None):
+        """Oracle for one transition.  Returns True when it violates the property."""
         p = self.part
         p.transitions += 1
         p.traces += 1
         p.evaluations += 1
-        hist = " > ".join(list(path) + [cand])
+        path, cand, res = tr["path"], tr["cand"], tr["res"]
+        shown = ([label] if label else []) + list(path) + [cand]
+        hist = " > ".join(shown)
         if res[0] == "fail":
-            _, etype, msg, where, missing = res
+            _, etype, msg, where = res
             p.outcome("import fails: %s in %s" % (etype, where or "?"))
             p.violation("import-fails|%s|%s|%s" % (etype, where, norm_msg(msg)), hist,
                         "`import %s`%s raises %s: %s (innermost ioflo frame %s)"
-                        % (cand, " after importing " + ", ".join(path) if path else " in a fresh interpreter",
+                        % (cand, " after importing " + ", ".join(shown[:-1]) if shown[:-1] else " in a fresh interpreter",
                            etype, norm_msg(msg), where or "?"),
-                        dict(interpreter=PY + " -I -W ignore", imports_in_order=list(path) + [cand],
+                        dict(interpreter=PY + (" -I -S" if label else " -I") + " -W ignore", imports_in_order=list(path) + [cand],
                              exception=etype, message=msg, where=where,
                              reproduce="%s -I -c \"import sys; sys.path.insert(0, '<repo>'); %s\""
                                        % (PY, "; ".join("import " + m for m in list(path) + [cand]))))
-            return True, failed_before | {cand}
-        dig = res[1]
-        if not path:
-            self.alone[cand] = dig
-            p.outcome("ok alone")
-            return False, failed_before
-        ref = self.alone.get(cand)
-        if ref is None:
-            p.outcome("ok (no alone reference: alone import failed)")
-            return False, failed_before
-        if dig != ref:
-            a = self.verbose_namespace((), cand) or []
-            b = self.verbose_namespace(path, cand) or []
-            sa, sb = set(a), set(b)
+            return True
+        info = tr["info"]
+        if isinstance(info, dict):
+            mism = sorted(k for k in info if k in self.alone and self.alone[k] != info[k])
+        else:
+            mism = list(info)
+        if mism:
+            module = cand if cand in mism else mism[0]
+            sa, sb = self.namespace_diff(path, cand, module)
             diff = sorted(sa ^ sb)[:12]
             p.outcome("namespace differs")
-            p.violation("namespace-differs|%s" % cand, hist,
-                        "public namespace of %s after importing %s differs from the one it has when imported alone: %s"
-                        % (cand, ", ".join(path), "; ".join(diff)),
-                        dict(imports_in_order=list(path) + [cand], only_alone=sorted(sa - sb)[:40],
-                             only_after=sorted(sb - sa)[:40]))
-            return True, failed_before
-        p.outcome("ok, namespace equal to alone import" if cand not in self._loaded_before else
-                  "ok, already loaded, namespace equal to alone import")
-        return False, failed_before
+            p.violation("namespace-differs|%s" % module, hist,
+                        "after %s the public namespace of %s differs from the one it has when imported alone: %s"
+                        % (", ".join("import " + m for m in shown), module, "; ".join(diff)),
+                        dict(imports_in_order=list(path) + [cand], module=module, only_alone=sorted(sa - sb)[:40],
+                             only_after=sorted(sb - sa)[:40], all_differing_modules=mism))
+            return True
+        if not path and not label:
+            p.outcome("ok alone")
+        else:
+            p.outcome("ok, every loaded module's namespace equals its alone import")
+        return False
 
     def bfs(self, max_depth):
         p = self.part
-        init = state_key((), ())
+        init = (frozenset(), frozenset(), "")
         seen = {init: ()}
         frontier = [((), init)]
         depth = 0
         layers = []
         while frontier and depth < max_depth:
-            mode = "direct" if depth == 0 else "fork"
             work = [(path, self.mods) for path, _ in frontier]
             keyof = {tuple(path): key for path, key in frontier}
+            if depth == 0:
+                trs = self.transitions(work, "direct", alone=None)
+                for tr in trs:               # the alone digests are the reference for everything else
+                    if tr["res"][0] == "ok":
+                        self.alone[tr["cand"]] = tr["info"][tr["cand"]]
+            else:
+                trs = self.transitions(work, "fork", alone=self.alone)
             nxt = []
-            for path, cand, res, after in self.transitions(work, mode):
-                src = keyof[tuple(path)]
-                self._loaded_before = src[0]
-                bad, failed = self.judge(path, cand, res, after, src[1])
-                key = state_key(after, failed)
-                if key[0] != src[0] or key[1] != src[1]:
+            for tr in trs:
+                src = keyof[tuple(tr["path"])]
+                bad = self.judge(tr)
+                failed = src[1] | ({tr["cand"]} if tr["res"][0] == "fail" else frozenset())
+                key = (tr["after"], frozenset(failed), tr["fp"])
+                if key != src and depth > 0 or (depth == 0):
                     p.nontrivial("edge %s -> %s" % (short_state(src), short_state(key)))
                 if bad:
                     continue                      # do not expand beyond a violation
                 if key not in seen:
-                    seen[key] = tuple(path) + (cand,)
-                    nxt.append((tuple(path) + (cand,), key))
+                    seen[key] = tuple(tr["path"]) + (tr["cand"],)
+                    nxt.append((tuple(tr["path"]) + (tr["cand"],), key))
             depth += 1
             layers.append(len(nxt))
             frontier = nxt
@@ -340,33 +360,22 @@ class Explorer:
         return dict(depth=depth, layers=layers, fixpoint=not frontier, frontier_left=len(frontier))
 
     def bare_sweep(self):
-        """Every module alone in a `python -I -S` interpreter (no site, so not even `collections`
-        is loaded): second, colder initial state.  Judged like a transition after the empty path,
-        digest compared with the `-I` alone digest."""
-        n = 0
-        alone = dict(self.alone)
-        for path, cand, res, after in self.transitions([((), self.mods)], "direct", bare=True):
-            self._loaded_before = frozenset()
-            if res[0] == "ok" and alone.get(cand) is not None:
-                # judge as a non-empty path so that the digest is compared, labelled as the bare start
-                self.judge(("<python -I -S>",), cand, res, after, frozenset())
-            else:
-                self.judge((), cand, res, after, frozenset())
-            n += 1
-        self.alone = alone
-        return n
+        """Every module alone in a `python -I -S` interpreter (no site, so not even `collections` is
+        loaded): a second, colder initial state, judged like any transition."""
+        trs = self.transitions([((), self.mods)], "direct", bare=True, alone=self.alone)
+        for tr in trs:
+            self.judge(tr, label="<python -I -S>")
+        return len(trs)
 
     def pairs(self):
         """All ordered pairs (a, b), a != b, without the state abstraction: a fresh interpreter
         imports a, then (forked) each b."""
         ok_first = [m for m in self.mods if m in self.alone]
         work = [((a,), [b for b in self.mods if b != a]) for a in ok_first]
-        n = 0
-        for path, cand, res, after in self.transitions(work, "fork"):
-            self._loaded_before = frozenset()
-            self.judge(path, cand, res, after, frozenset())
-            n += 1
-        return n
+        trs = self.transitions(work, "fork", alone=self.alone)
+        for tr in trs:
+            self.judge(tr)
+        return len(trs)
 
 
 def run():
@@ -389,13 +398,17 @@ def run():
     p.sample(dict(bfs=info))
     ck.coverage_extra = dict(modules=len(mods), module_list=mods, bfs_depth=info["depth"], new_states_per_layer=info["layers"],
                              fixpoint=info["fixpoint"], unexpanded_frontier=info["frontier_left"],
-                             interpreter_processes=ex.processes, ordered_pairs_without_abstraction=npairs, alone_imports_without_site=nbare,
-                             interpreter="%s -I -W ignore" % PY)
+                             interpreter_processes=ex.processes, ordered_pairs_without_abstraction=npairs,
+                             alone_imports_without_site=nbare, interpreter="%s -I -W ignore" % PY)
     ck.assumptions = [
         "supported interpreter = /venv/bin/python (3.12); `-I` isolates from environment, user site and cwd; the driver imports only sys, os, zlib",
-        "state abstraction: two paths are the same state when the same ioflo modules are in sys.modules and the same imports failed",
+        "state abstraction: two paths are the same state when the same ioflo modules are in sys.modules with the same public "
+        "namespaces (fingerprint over every loaded ioflo module) and the same imports failed",
         "states at depth >= 1 are materialised in a fresh interpreter; their outgoing transitions run in forks of that interpreter "
-        "(depth-0 transitions, i.e. every module alone, each run in their own fresh interpreter)",
+        "(imports of already loaded modules run in place: a sys.modules lookup); depth-0 transitions, i.e. every module alone, "
+        "each run in their own fresh interpreter, once with site (`-I`) and once without (`-I -S`)",
+        "`the result does not depend on what was imported before`: after every transition the namespace of every loaded ioflo "
+        "module (what a following `import x` returns) must equal the namespace x has when imported alone",
         "namespace = public (no leading underscore) module attributes described by kind and defining module, excluding a package's own "
         "submodule attributes, which Python binds as a side effect of importing the submodule",
         "test packages (ioflo.**.test) are not library API and are excluded",
@@ -403,8 +416,8 @@ def run():
         "(install_requires=[]) and guards or defers every optional one (simplejson, win32file, netifaces, pyserial), so no allowance is needed",
     ]
     return ck.finish(
-        rule="all %d non-test modules imported from every import state reachable in < %d imports; non-trivial = transition that "
-             "changes the set of loaded ioflo modules" % (len(mods), depth),
+        rule="all %d non-test modules imported from every import state reachable in < %d imports; non-trivial = distinct "
+             "state-to-state edge" % (len(mods), depth),
         exhaustive=info["fixpoint"],
         explanation="depth-bounded BFS; the lattice of unions of module closures is not exhausted (unexpanded frontier reported)")
 
